@@ -161,6 +161,9 @@ if (jcol == BADPAN)
 	nsupc = krep - fsupc + 1;
 	nsupr = xlsub_end[fsupc] - xlsub[fsupc];
 	nrow = nsupr - nsupc;
+#ifdef SLU_MT_VERIF
+	SLU_MT_VERIF_EVENT(SLUV_UPDATE_SRC, pnum, jcol, krep, fsupc, pxgstrf_shared);
+#endif
 
 #ifdef PREDICT_OPT
 	pmod = Gstat->procstat[pnum].fcops;
@@ -251,6 +254,9 @@ if (jcol == BADPAN)
 #ifdef PROFILE
 	    TIC(t1);
 #endif
+#ifdef SLU_MT_VERIF
+	    SLU_MT_VERIF_EVENT(SLUV_WAIT_COL, pnum, jcol, kcol, 0, pxgstrf_shared);
+#endif
 	    await( &pxgstrf_shared->spin_locks[kcol] );
 
 #ifdef PROFILE
@@ -286,6 +292,9 @@ if (jcol == BADPAN)
 #ifdef PROFILE
 		TIC(t1);
 #endif
+#ifdef SLU_MT_VERIF
+		SLU_MT_VERIF_EVENT(SLUV_WAIT_COL, pnum, jcol, kcol, 1, pxgstrf_shared);
+#endif
 		await ( &pxgstrf_shared->spin_locks[kcol] );
 
 #ifdef PROFILE
@@ -314,6 +323,9 @@ if ( jcol==BADCOL )
 	   copy_to_ucol() will use them. */
 	segrep[*nseg] = krep;
         ++(*nseg);
+#ifdef SLU_MT_VERIF
+	SLU_MT_VERIF_EVENT(SLUV_UPDATE_BUSY, pnum, jcol, krep, fsupc, pxgstrf_shared);
+#endif
         
 	/* Determine repfnz[krep, w] for each column in the panel */
 	for (jj = jcol; jj < jcol + w; ++jj, dense_col += m, 
